@@ -49,6 +49,14 @@ func unitC04orch(e common.Env, p *common.Part) {
 	mk("dkg N=3 ids 5,9,12 senders 5,12 round 0", []uint16{5, 9, 12}, false, []uint16{5, 12}, []uint8{0}, false, e.Pick(0, 20000), e.Pick(300, 2000))
 	mk("dkg N=4 sender 1", []uint16{1, 2, 3, 4}, false, []uint16{1}, []uint8{1}, false, e.Pick(1000, 20000), e.Pick(200, 0))
 	mk("dkg N=3 all senders 2 rounds p2p", []uint16{1, 2, 3}, false, []uint16{1, 2, 3}, []uint8{1, 2}, true, 0, e.Pick(400, 6000))
+	mkSilent := func(name string, ids []uint16, sign bool, transmit []uint16, rounds []uint8, p2p bool, limit, samples int) {
+		mk(name, ids, sign, transmit, rounds, p2p, limit, samples)
+		cases[len(cases)-1].cfg.Silent = true
+	}
+	// in silent mode a party hands nothing over before its own first transmission on the topic: everybody transmits
+	mkSilent("silent dkg N=3 all senders", []uint16{1, 2, 3}, false, []uint16{1, 2, 3}, []uint8{1}, false, e.Pick(3000, 20000), e.Pick(300, 2000))
+	mkSilent("silent sign N=3 all senders p2p", []uint16{1, 2, 3}, true, []uint16{1, 2, 3}, []uint8{1}, true, e.Pick(2000, 20000), e.Pick(300, 3000))
+	mkSilent("silent dkg N=4 all senders 2 rounds p2p", []uint16{1, 2, 3, 4}, false, []uint16{1, 2, 3, 4}, []uint8{1, 2}, true, 0, e.Pick(200, 4000))
 	mk("sign N=4 all senders 3 rounds p2p", []uint16{1, 2, 3, 4}, true, []uint16{1, 2, 3, 4}, []uint8{1, 2, 127}, true, 0, e.Pick(200, 4000))
 	mk("dkg N=5 senders 1,3,5 2 rounds p2p", []uint16{1, 2, 3, 4, 5}, false, []uint16{1, 3, 5}, []uint8{1, 2}, true, 0, e.Pick(100, 3000))
 	for i, oc := range cases {
@@ -108,6 +116,12 @@ func byzOrchCatalogue(e common.Env) []ocase {
 		// N=3, Byzantine sender 1, honest 2,3
 		add(kind+" N=3 equivocate", []uint16{1, 2, 3}, nil, sign, map[uint16]*byzPlan{1: {RouteVersion: map[uint8][]uint16{1: {2}, 2: {3}}}}, nil, []uint16{1}, map[uint16]int{1: 2}, lim3, 0)
 		add(kind+" N=3 equivocate+reflect-acks", []uint16{1, 2, 3}, nil, sign, map[uint16]*byzPlan{1: {RouteVersion: map[uint8][]uint16{1: {2}, 2: {3}}, ReflectAcks: true}}, nil, []uint16{1}, map[uint16]int{1: 2}, lim3, 0)
+		add("silent "+kind+" N=3 equivocate+reflect-acks", []uint16{1, 2, 3}, nil, sign, map[uint16]*byzPlan{1: {RouteVersion: map[uint8][]uint16{1: {2}, 2: {3}}, ReflectAcks: true}}, nil, []uint16{1, 2, 3}, map[uint16]int{1: 2}, e.Pick(3000, 20000), smp)
+		out[len(out)-1].cfg.Silent = true
+		add("silent "+kind+" N=3 resend+reflect-twice, honest sender 2", []uint16{1, 2, 3}, nil, sign, map[uint16]*byzPlan{1: {ReflectAcks: true, ReflectTwice: true, ResendPayloads: 2}}, nil, []uint16{1, 2, 3}, nil, e.Pick(3000, 20000), smp)
+		out[len(out)-1].cfg.Silent = true
+		add("silent "+kind+" N=4 equivocate 2|3,4 +reflect + non-member replay", []uint16{1, 2, 3, 4}, nil, sign, map[uint16]*byzPlan{1: {RouteVersion: map[uint8][]uint16{1: {2}, 2: {3, 4}}, ReflectAcks: true}}, []outsiderPlan{{ID: 77, Tap: 2, Victims: []uint16{3}}}, []uint16{1, 2, 3, 4}, map[uint16]int{1: 2}, lim4, smp)
+		out[len(out)-1].cfg.Silent = true
 		add(kind+" N=3 equivocate+reflect-acks-twice+resend", []uint16{1, 2, 3}, nil, sign, map[uint16]*byzPlan{1: {RouteVersion: map[uint8][]uint16{1: {2}, 2: {3}}, ReflectAcks: true, ReflectTwice: true, ResendPayloads: 1}}, nil, []uint16{1}, map[uint16]int{1: 2}, lim3, smp)
 		add(kind+" N=3 vouchers-without-payload", []uint16{1, 2, 3}, nil, sign, map[uint16]*byzPlan{1: {WithholdPayloadFrom: map[uint16]bool{3: true}, ReflectAcks: true}}, nil, []uint16{1}, nil, lim3, 0)
 		add(kind+" N=3 honest-broadcast resend+reflect", []uint16{1, 2, 3}, nil, sign, map[uint16]*byzPlan{1: {ReflectAcks: true, ReflectTwice: true, ResendPayloads: 2}}, nil, []uint16{1, 2}, nil, e.Pick(3000, 20000), smp)
